@@ -188,6 +188,13 @@ class AnyArray(np.lib.mixins.NDArrayOperatorsMixin):
         # https://github.com/cupy/cupy/issues/2616 is resolved
         self._writeable = False
 
+    def __setstate__(self, state):
+        # NumPy does not pickle (or deep-copy) the `writeable` flag: restore the
+        # write protection of a locked AnyArray after unpickling / copy.deepcopy
+        self.__dict__.update(state)
+        if not self._writeable:
+            self.lock()
+
     @property
     def readonly(self):
         """Indicates whether the AnyArray instance is read-only.
